@@ -7,16 +7,21 @@
     `unidentifiable` — no other failure; in particular the final normalisation cannot divide by `Zero()`.
     Needs from the separation test only that it does not fail on valid arguments (`SepTotal`; true of the model
     of `are_d_separated`: `dsep_sepTotal`, from C04's `dsep_total`).
-  * `idc_sound_of_rule2`: whenever IDC returns an estimand `e`, for every compatible model `M` in which rule 2 of
-    the do-calculus holds for the separation test (`Rule2Sound sep M G`, an explicit hypothesis, not an axiom),
-    `den e σ = P(y, z | do x) / P(z | do x)` at every assignment.  It rests on `idAlg_sound` (C01).
-
-  -- OPEN: idc_sound : … → den (M.env G) σ' e σ = M.condDo G X Y Z σ     without the hypothesis `Rule2Sound`,
-  --   i.e. rule 2 of the do-calculus for `are_d_separated` and the SCM class of Y0/Spec/Scm.lean
-  --   ("(markov)": separation in the augmented ancestral graph implies conditional independence in every compatible
-  --   model, applied in G with the edges into X and out of Z removed).  Literature (Pearl 1995), not mechanised.
+  * `rule2_sound`: **rule 2 of the do-calculus** for the model of `are_d_separated` and every compatible positive
+    semi-Markovian model: if every outcome is reported separated from the condition `c` given `X ∪ (Z − c)` in `G` with
+    the edges into `X` and out of `c` removed, then `P(y | do x, z) = P(y | do x, do c, z − c)`.  Proved from the
+    c-factor calculus (Y0/Lemmas/IdcRule2.lean) and the moralisation theorem of C04 lifted from pairs to a set of
+    targets (Y0/Lemmas/IdcSepSet.lean).
+  * `idc_sound`: **C03** — whenever IDC (with the model of `are_d_separated`) returns an estimand `e`, for every
+    compatible model `M`, `den e σ = P(y, z | do x) / P(z | do x)` at every assignment.  No hypothesis besides the
+    property's quantifier (valid query on a well-formed acyclic graph, compatible model) and `TopoSound topo` (what
+    networkx' `topological_sort` is assumed to return, as in C01; `idc_sound_acyclic` removes it with an executable
+    sorter).  It rests on `idAlg_sound` (C01) and `rule2_sound`.
+  * `idc_sound_of_rule2`: the same for an arbitrary separation test satisfying rule 2 in `M` (`Rule2Sound sep M G`).
 -/
 import Y0.Lemmas.IdcSound
+import Y0.Lemmas.IdcRule2
+import Y0.Lemmas.IdcFuel
 import Y0.Lemmas.IdZeroFree
 import Y0.Props.C04
 import Y0.Props.C02
@@ -278,6 +283,90 @@ theorem idc_order_irrelevant_of_rule2 {sep : SepTest} {topo : MG Name → Except
   rw [doProb_congr M G X (Y := union' Y Z) (Y' := union' Y Z') (fun v => by simp [mem_union', hZ v]),
     doProb_congr M G X hZ]
 
+theorem allSep_true {sep : SepTest} {Gm : MG Name} {c : Name} {conds : List Name} :
+    ∀ Y : List Name, allSep sep Gm c conds Y = .ok true → ∀ y ∈ Y, sep Gm y c conds = .ok true := by
+  intro Y
+  induction Y with
+  | nil => intro _ y hy; cases hy
+  | cons a l ih =>
+    intro h y hy
+    unfold allSep at h
+    obtain ⟨b, hb, h⟩ := bind_ok h
+    cases b with
+    | true =>
+      rcases List.mem_cons.1 hy with rfl | hy
+      · exact hb
+      · exact ih (by simpa using h) y hy
+    | false => simp [pure, Except.pure] at h
+
+/-- **rule 2 of the do-calculus** (action/observation exchange) holds for the model of `are_d_separated` in every
+positive semi-Markovian model compatible with a well-formed acyclic graph: the hypothesis `Rule2Sound` of
+`idc_sound_of_rule2` is a theorem.  `X`, `Y`, `Z` are arbitrary lists (`CondDisj`). -/
+theorem rule2_sound (G : MG Name) (hG : G.WF) (hR : G.Ranked) (M : Scm) (hM : M.Compatible G) :
+    Rule2Sound (fun G a b C => G.dSeparated a b C) M G := by
+  intro X Y Z c hd hcZ hr σ
+  unfold rule2Applies at hr
+  have hH : ((G.removeInEdges X).removeOutEdges [c]).WF := wf_fromEdges _ _ _
+  have hcC : c ∉ union' X (Z.filter (· ≠ c)) := by
+    intro h
+    rcases mem_union'.mp h with h | h
+    · exact hd.zx c hcZ h
+    · simpa using (List.mem_filter.mp h).2
+  apply rule2_of_augSeparated hM hG hR X Y Z c (hd.zsub c hcZ) hcZ (hd.zx c hcZ) hd.yx hd.yz
+  intro y hy
+  have hyC : y ∉ union' X (Z.filter (· ≠ c)) := by
+    intro h
+    rcases mem_union'.mp h with h | h
+    · exact hd.yx y hy h
+    · exact hd.yz y hy (List.mem_filter.mp h).1
+  have hs := allSep_true Y hr y hy
+  by_cases hq : ((G.removeInEdges X).removeOutEdges [c]).ValidQuery y c (union' X (Z.filter (· ≠ c)))
+  · exact (augSeparated_symm _ _ _ _).1 ((dsep_iff_augmented _ hH y c _ hq hyC hcC true hs).1 rfl)
+  · rw [dsep_invalid _ y c _ hq] at hs
+    cases hs
+
+/-- **C03.** Whenever IDC returns an estimand for `P(Y | do(X), Z)` on an acyclic directed mixed graph, its value on the
+observational distribution of any structural causal model compatible with the graph equals that model's
+`P(Y, Z | do(X)) / P(Z | do(X))`, for every assignment of values. -/
+theorem idc_sound {topo : MG Name → Except Err (List Name)} (ts : TopoSound topo)
+    (G : MG Name) (X Y Z : List Name) (hq : ValidCondQuery G X Y Z) (e : Expr)
+    (h : idc (fun G a b C => G.dSeparated a b C) topo G X Y Z = .ok e) (M : Scm) (hM : M.Compatible G)
+    (σ' σ : Val) : den (M.env G) σ' e σ = M.condDo G X Y Z σ :=
+  idc_sound_of_rule2 ts G X Y Z hq e h M hM (rule2_sound G hq.wf hq.ranked M hM) σ' σ
+
+/-- **C03, closed form**: with the executable sorter `ancTopo` (which provably returns linear extensions) and
+acyclicity in its relational form, no assumption about `topological_sort` is left. -/
+theorem idc_sound_acyclic (G : MG Name) (X Y Z : List Name) (hG : G.WF) (hac : G.Acyclic)
+    (hd : CondDisj G X Y Z) (hX : ∀ x ∈ X, x ∈ G.nodes) (hZ : Z.Nodup) (e : Expr)
+    (h : idc (fun G a b C => G.dSeparated a b C) ancTopo G X Y Z = .ok e) (M : Scm) (hM : M.Compatible G)
+    (σ' σ : Val) : den (M.env G) σ' e σ = M.condDo G X Y Z σ :=
+  idc_sound ancTopo_sound G X Y Z ⟨hG, MG.acyclic_ranked hG hac, hd, hX, hZ⟩ e h M hM σ' σ
+
+/-- the public wrapper `identify_outcomes(…, conditions=…)` -/
+theorem identifyOutcomesC_sound {topo : MG Name → Except Err (List Name)} (ts : TopoSound topo)
+    (G : MG Name) (X Y Z : List Name) (hq : ValidCondQuery G X Y Z) (e : Expr)
+    (h : identifyOutcomesC (fun G a b C => G.dSeparated a b C) topo G X Y Z = .ok (some e)) (M : Scm)
+    (hM : M.Compatible G) (σ' σ : Val) : den (M.env G) σ' e σ = M.condDo G X Y Z σ := by
+  unfold identifyOutcomesC at h
+  split at h
+  · rename_i e' he
+    simp only [Except.ok.injEq, Option.some.injEq] at h
+    subst h
+    exact idc_sound ts G X Y Z hq _ he M hM σ' σ
+  · cases h
+  · cases h
+
+/-- **the order in which the conditions are met is irrelevant**: two successful runs of IDC on the same query with
+the conditions listed in different orders return estimands with the same value in every compatible model -/
+theorem idc_order_irrelevant {topo : MG Name → Except Err (List Name)} (ts : TopoSound topo)
+    (G : MG Name) (X Y Z Z' : List Name) (hq : ValidCondQuery G X Y Z) (hq' : ValidCondQuery G X Y Z')
+    (hZ : ∀ v, v ∈ Z ↔ v ∈ Z') (e e' : Expr)
+    (h : idc (fun G a b C => G.dSeparated a b C) topo G X Y Z = .ok e)
+    (h' : idc (fun G a b C => G.dSeparated a b C) topo G X Y Z' = .ok e')
+    (M : Scm) (hM : M.Compatible G) (σ' σ : Val) :
+    den (M.env G) σ' e σ = den (M.env G) σ' e' σ :=
+  idc_order_irrelevant_of_rule2 ts G X Y Z Z' hq hq' hZ e e' h h' M hM (rule2_sound G hq.wf hq.ranked M hM) σ' σ
+
 /-- the public wrapper turns the refusal into `none`: it never raises `Unidentifiable` itself -/
 theorem identifyOutcomesC_not_unidentifiable (sep : SepTest) (topo : MG Name → Except Err (List Name)) (G : MG Name)
     (X Y Z : List Name) : identifyOutcomesC sep topo G X Y Z ≠ .error .unidentifiable := by
@@ -297,5 +386,21 @@ example : ValidCondQuery (MG.fromEdges [0, 1, 2] [(0, 2), (2, 1)] [(0, 2)]) [0] 
 is used non-trivially -/
 example : rule2Applies (fun G a b C => G.dSeparated a b C) (MG.fromEdges [0, 1, 2] [(0, 2), (2, 1)] [(0, 2)])
     [0] [1] [2] 2 = .ok true := by decide
+
+/-- IDC succeeds on that query (rule 2 exchanges the condition, then ID runs on `P(Y | do(X, Z))`), with a sorter for
+which `TopoSound` is proved; so `idc_sound` applies to a run on which rule 2 is really used: in every compatible model
+the returned estimand equals `P(y | do(x), z)` -/
+example (M : Scm) (hM : M.Compatible (MG.fromEdges [0, 1, 2] [(0, 2), (2, 1)] [(0, 2)])) (σ' σ : Val) :
+    ∃ e, idc (fun G a b C => G.dSeparated a b C) checkedTopo (MG.fromEdges [0, 1, 2] [(0, 2), (2, 1)] [(0, 2)])
+        [0] [1] [2] = .ok e ∧
+      den (M.env (MG.fromEdges [0, 1, 2] [(0, 2), (2, 1)] [(0, 2)])) σ' e σ =
+        M.condDo (MG.fromEdges [0, 1, 2] [(0, 2), (2, 1)] [(0, 2)]) [0] [1] [2] σ := by
+  have h : ∃ e, idc (fun G a b C => G.dSeparated a b C) checkedTopo
+      (MG.fromEdges [0, 1, 2] [(0, 2), (2, 1)] [(0, 2)]) [0] [1] [2] = .ok e :=
+    ⟨_, idcF_ok _ _ 8 _ _ _ _ _ (by rfl)⟩
+  obtain ⟨e, he⟩ := h
+  exact ⟨e, he, idc_sound checkedTopo_sound _ [0] [1] [2]
+    ⟨MG.wf_fromEdges _ _ _, ⟨fun v => if v = 0 then 0 else if v = 2 then 1 else 2, by decide⟩,
+      ⟨by decide, by decide, by decide, by decide, by decide, by decide⟩, by decide, by decide⟩ e he M hM σ' σ⟩
 
 end Y0
